@@ -74,7 +74,7 @@ Proof. exact wake_premises. Qed.
 (* the property itself on a class of workflows, for every run (Progress.v): a workflow of steps in sequence whose acts are
    interactive (irq) acts or message (msg) acts -- frag_nodes: no conditions, branches, catches, setup / hooks or function
    acts; any inputs, outputs and timeout declarations -- under any schedule (OSched k picks any queued task, ODrain runs them all), any ticks and any
-   accepted or rejected complete / submit / remove / skip actions on any task at any moment (frag_op) is never stuck: when
+   accepted or rejected complete / submit / remove / skip / abort actions on any task at any moment (frag_op) is never stuck: when
    nothing is queued and the process has not ended, some act is interrupted, i.e. waits for a client.  No hypothesis on
    fuel: in this class the review chain is act -> step -> workflow.  The invariant is that every open task is queued, or
    interrupted, or running over an open task whose parent it is. *)
